@@ -60,6 +60,14 @@ impl DataItem for DateItem {
         let mut date = self.0;
         let mut duration = other.as_any().downcast_ref::<DurationItem>()?.get_duration();
 
+        /* A negative duration (`5 jan 2020-1 month` is read as the date and the signed literal -1) moves the date the
+           other way: the year / month steps below count with the absolute value and expect a positive duration */
+        let operation_type = match (operation_type, duration < Duration::zero()) {
+            (OperationType::Add, true) => { duration = -duration; OperationType::Sub },
+            (OperationType::Sub, true) => { duration = -duration; OperationType::Add },
+            (operation_type, _) => operation_type
+        };
+
         match operation_type {
             OperationType::Add => {
                 match self.get_year_from_duration(duration) {
